@@ -283,6 +283,8 @@ def run(ctx, P):
     r2.expiry_only_brought_forward(ctx, P, "C20g")
     r2.verify_chain_is_finite(ctx, P, "C20h")
     r2.followup_chain_not_restarted(ctx, P, "C20i")
+    r2.stop_forgets_every_record_kind(ctx, P, "C20j")
+    r2.subtype_map_pruned_on_every_sweep(ctx, P, "C20k")
     clause_f(ctx, P)
     clause_a(ctx, P)
     clause_b(ctx, P)
